@@ -410,8 +410,8 @@ class SpaceKind(AbsInt):
         if name in ('scipy.stats.norm.ppf', 'scipy.special.ndtri'):
             a = self._flat(self.value(args[0], fr)) if args else TOP
             if a == 'P':
-                self.mismatches.append((node, fr.fn, 'norm.ppf receives a probability that may be exactly 0 or 1 '
-                                        '(not clipped away from the ends): +-inf normal scores'))
+                self.mismatches.append((node, fr.fn, 'norm.ppf receives a probability that is not clipped to [EPSILON, 1 - EPSILON] '
+                                        '(it may be 0, 1 or arbitrarily close to them): infinite or extreme normal scores'))
             else:
                 self._want(node, fr, a, 'P0', 'norm.ppf')
             return 'Z' if a is not TOP else 'Z'
@@ -479,6 +479,8 @@ class SpaceKind(AbsInt):
             return self.value(args[1], fr)
         if name == 'numpy.clip' and len(args) >= 3:
             return self._clip(self._flat(self.value(args[0], fr)), self.value(args[1], fr), self.value(args[2], fr))
+        if name == 'numpy.where' and len(args) == 3:
+            return self._where(node, fr)
         if name in ('min', 'max', 'numpy.minimum', 'numpy.maximum') and len(args) == 2:
             a, b = self.value(args[0], fr), self.value(args[1], fr)
             ks = [k for k in (a, b) if isinstance(k, str) and k not in ('EPS', '1-EPS')]
@@ -503,6 +505,44 @@ class SpaceKind(AbsInt):
                 self._want(node, fr, self._flat(self.value(args[0], fr)), want, f'{name}')
             return res
         return TOP
+
+    def _where(self, node, fr):
+        """np.where(x < lo, lo, np.where(x > hi, hi, x)) is clip(x, lo, hi); any other selection of probabilities is a
+        probability without the clipping guarantee."""
+        def parse(w):
+            if not (isinstance(w, ast.Call) and call_name(w) == 'where' and len(w.args) == 3):
+                return None
+            c, a, b = w.args
+            if not (isinstance(c, ast.Compare) and len(c.ops) == 1):
+                return None
+            return c, a, b
+        outer = parse(node)
+        base_kinds = []
+        if outer:
+            c, a, b = outer
+            inner = parse(b)
+            if inner:
+                c2, a2, b2 = inner
+                x = self._flat(self.value(b2, fr))
+                lo_v, hi_v = self.value(a, fr), self.value(a2, fr)
+                t1, t2 = self.value(c.comparators[0], fr), self.value(c2.comparators[0], fr)
+                same_x = ast.dump(c.left) == ast.dump(c2.left) == ast.dump(b2)
+                if is_prob(x) and same_x:
+                    lower_first = isinstance(c.ops[0], (ast.Lt, ast.LtE)) and isinstance(c2.ops[0], (ast.Gt, ast.GtE))
+                    if lower_first and t1 == lo_v and t2 == hi_v:
+                        return self._clip(x, lo_v, hi_v)
+                    upper_first = isinstance(c.ops[0], (ast.Gt, ast.GtE)) and isinstance(c2.ops[0], (ast.Lt, ast.LtE))
+                    if upper_first and t1 == lo_v and t2 == hi_v:
+                        return self._clip(x, hi_v, lo_v)
+                    return 'P'
+        vals = [self._flat(self.value(a, fr)) for a in node.args[1:]]
+        ks = [v for v in vals if isinstance(v, str) and v not in ('EPS', '1-EPS')]
+        if ks and all(is_prob(k) for k in ks):
+            return 'P'
+        out = BOT
+        for v in vals:
+            out = self.join(out, v)
+        return out
 
     @staticmethod
     def _pos(k):
